@@ -173,6 +173,9 @@ func init() {
 	// stubs returning any size >= 1 MiB (documented contract: some plausible amount).
 	memStub := func(name string) externalFn {
 		return func(fr *frame, a []value) value {
+			if fr.i.cfg.ConcreteMem {
+				return tuple{uint64(1 << 33), iface{}}
+			}
 			v := fr.i.nondet(name, types.Uint64)
 			if sv, ok := v.(sym); ok {
 				s := fr.i.s
